@@ -56,6 +56,26 @@ def try_obs(path, how):
         return None, ex
 
 
+def index_only_entry(how, path, index_bytes):
+    """metadata observation of a lone index through TdmsFile.read / open / read_metadata"""
+    from nptdms import TdmsFile
+    src = path if path is not None else io.BytesIO(index_bytes)
+    try:
+        with warnings.catch_warnings():
+            warnings.simplefilter("ignore")
+            if how == "read":
+                f = TdmsFile.read(src, raw_timestamps=True)
+            elif how == "open":
+                f = TdmsFile.open(src, raw_timestamps=True)
+            else:
+                f = TdmsFile.read_metadata(src, raw_timestamps=True)
+            toks = G.observe_file(f, with_data=False)
+            f.close()
+            return toks, None
+    except Exception as ex:    # noqa: BLE001
+        return None, ex
+
+
 def index_only_refuses(idx_path):
     """every data read on an index-only file must raise; returns list of reads that returned data"""
     from nptdms import TdmsFile
@@ -109,7 +129,21 @@ def check_file(run, rng, work, k, data, index, label, cases_meta, cases_idx, tru
         only, ex2 = try_obs(io_path, "meta")
         run.cov["evaluations"] += 1
         run.count("%s_index_only" % label)
-        if only != meta_plain:
+        # every entry point must accept a lone index: read_metadata, open, read; path and stream
+        for how, src in (("read", io_path), ("read", "stream"), ("open", io_path), ("meta", "stream")):
+            o3, ex3 = index_only_entry(how, io_path if src != "stream" else None, index)
+            if o3 != meta_plain and only == meta_plain:
+                failed = True
+                run.violation("index-only-entry-" + how,
+                              "%s: TdmsFile.%s(index %s) differs from the data file's metadata: %s"
+                              % (label, how, "stream" if src == "stream" else "path",
+                                 repr(ex3)[:200] if ex3 else R.first_diff(o3, meta_plain)), case,
+                              expected="same metadata as the data file", actual=repr(ex3)[:300] if ex3 else
+                              R.first_diff(o3, meta_plain))
+                break
+        if failed:
+            pass
+        elif only != meta_plain:
             failed = True
             run.violation("index-only-differs", "%s: index file alone gives different objects/properties/types/lengths: %s"
                           % (label, repr(ex2)[:200] if ex2 else R.first_diff(only, meta_plain)), case,
